@@ -139,6 +139,8 @@ func (k *kase) oracleCounted(st step, moved *cfgGen) {
 	switch {
 	case !counting && n != 0:
 		what = "counting is disabled in this configuration"
+	case st.op == 'O' && st.out == "se" && n != 0:
+		what = "the rest of a streamed body arrived (strikes belong to the response header)"
 	case st.op == 'A' && n != 0:
 		what = "the client went away (context.Canceled is not the upstream's failure)"
 	case st.op == 'O' && answerStatus(st.out) != 0 && counting && n != wantStrikes(statusTable[moved.st.s], answerStatus(st.out))+k.slowStrike(st, moved):
